@@ -374,7 +374,7 @@ func (w *World) makeVector(r *Run, status string) *Vector {
 	sort.Strings(v.Known)
 	memo := map[*Term]uint64{}
 	for _, ir := range r.inputs {
-		if ir.Env {
+		if ir.Env || ir.Internal {
 			continue
 		}
 		v.Values = append(v.Values, r.witness[ir.Name]&maskB(ir.W))
@@ -439,7 +439,7 @@ func violationVector(h *Harness, v *Violation) *Vector {
 	}
 	sort.Strings(vec.Known)
 	for _, ir := range v.Inputs {
-		if ir.Env {
+		if ir.Env || ir.Internal {
 			continue
 		}
 		vec.Values = append(vec.Values, v.Model[ir.Name]&maskB(ir.W))
